@@ -2,7 +2,7 @@
 open Util
 open Pcapcommon
 
-let run (id : string) (ops : string list) (out : out_channel) =
+let parse (ops : string list) : string * bool * bool * int * PcapModel.chunk list =
   let fmt = ref "pcap" and zc = ref false and gz = ref false and n = ref 0 in
   let chunks = ref [] in
   Stdlib.List.iter (fun op ->
@@ -18,7 +18,11 @@ let run (id : string) (ops : string list) (out : out_channel) =
     | "c" -> chunks := PcapModel.Chunk (bytes_of_hex arg) :: !chunks
     | "fail" -> chunks := PcapModel.Fail :: !chunks
     | _ -> failwith ("c15pcap op: " ^ op)) ops;
-  let s = Stdlib.List.rev !chunks in
+  (!fmt, !zc, !gz, !n, Stdlib.List.rev !chunks)
+
+let run (id : string) (ops : string list) (out : out_channel) =
+  let (fmt, zc, gz, n, s) = parse ops in
+  let fmt = ref fmt and zc = ref zc and gz = ref gz and n = ref n in
   let step = ref 0 in
   let emit x = Printf.fprintf out "%s\t%d\t%s\n" id !step x; incr step in
   if !gz then emit "gzip"
@@ -36,3 +40,23 @@ let run (id : string) (ops : string list) (out : out_channel) =
   end
 
 let registered = Registry.register "C15pcap" run
+
+(* ---- extraction cross-check inside Coq (see c18.ml): pcap_run / snoop_run on the case's chunked stream,
+   recomputed by vm_compute, must equal the 4-tuple this extracted runner computed (and snoop_linktype). *)
+let to_coq (idx : int) (ops : string list) (out : out_channel) =
+  let (fmt, zc, gz, n, s) = parse ops in
+  let nbytes = Stdlib.List.fold_left (fun a c -> match c with PcapModel.Chunk b -> a + Stdlib.List.length b | _ -> a) 0 s in
+  if not gz && nbytes <= 400 && n <= 2000 then begin
+    let fuel = nat_of_int n in
+    let args = Printf.sprintf "%s %s %s" (coq_bool zc) (coq_nat fuel) (coq_list coq_chunk s) in
+    if fmt = "snoop" then begin
+      let r = PcapModel.snoop_run zc fuel s in
+      coq_example out idx ("snoop_run " ^ args) (coq_run_result coq_sstate r);
+      (match r with
+       | (((Base.Ok st, _), _), _) ->
+         coq_example_named out (Printf.sprintf "sample_%d_lt" idx) ("snoop_linktype " ^ coq_sstate st) (coq_option coq_z (PcapModel.snoop_linktype st))
+       | _ -> ())
+    end else
+      coq_example out idx ("pcap_run " ^ args) (coq_run_result coq_rstate (PcapModel.pcap_run zc fuel s))
+  end
+let registered_coq = Registry.register_coq "C15pcap" (pcap_coq_header, to_coq)
